@@ -629,6 +629,7 @@ pub fn collect(tcx: TyCtxt<'_>) -> J {
                         .map(|v| {
                             J::obj(vec![
                                 ("name", J::Str(v.name.to_string())),
+                                ("discr_explicit", J::Bool(matches!(v.discr, rustc_middle::ty::VariantDiscr::Explicit(_)))),
                                 (
                                     "fields",
                                     J::Arr(
